@@ -11,3 +11,5 @@ open Just.C11
 #print axioms unindent_slice_valid
 #print axioms unindent_cuts_blanks_only
 #print axioms sigil_slice_valid
+#print axioms cook_unwrap_safe
+#print axioms cook_literal_unwrap_safe
